@@ -402,6 +402,7 @@ def run(pid, tier, seed, replay_only=None):
                 continue
             path = write_replay('bounded:' + b['name'], {'property': pid, 'obligation': 'bounded:' + b['name'],
                                                          'native_counterexample': {'args': b['counterexample']},
+                                                         'tier': tier, 'seed': seed, 'bound': b.get('bound'),
                                                          'tree': os.environ.get('VERIF_REPO', '/repo')})
             violations.append(('bounded:' + b['name'], path, True))
 
@@ -503,6 +504,29 @@ def replay(path):
     if not ce:
         print('no concrete input recorded (no-failing-input-found); solver output:')
         print(json.dumps(data.get('solver'), indent=1)[:2000])
+        return 1
+    if str(data.get('obligation', '')).startswith('bounded:'):
+        # re-run the (deterministic) stand-in that produced the input, against the current tree
+        name = data['obligation'][len('bounded:'):]
+        print('recorded input: %r' % (ce.get('args'),))
+        still = None
+        for hook in prop.get('extra', []):
+            modname, fname = hook.rsplit('.', 1)
+            fn = getattr(importlib.import_module(modname), fname)
+            import contextlib as _ctxlib
+            import io as _io
+            with _ctxlib.redirect_stdout(_io.StringIO()), _ctxlib.redirect_stderr(_io.StringIO()):
+                r = fn(None, data.get('tier', 'quick'), data.get('seed', 0))
+            for b in r.get('bounded', []):
+                if b['name'] == name:
+                    still = b
+        if still is None:
+            print('the stand-in %s is not attached to %s any more' % (name, pid))
+            return 1
+        if still.get('counterexample') is None:
+            print('on the current tree: the stand-in finds no counterexample (%d evaluations)' % still.get('evaluations', 0))
+            return 0
+        print('on the current tree the stand-in reports: %r' % (still['counterexample'],))
         return 1
     q = data.get('function')
     if q in C.CONTRACTS:
